@@ -141,7 +141,9 @@ Theorem C05_witness_line_one_line : forall w label e,
 Proof. exact witness_line_one_line. Qed.
 
 (* the answer can be read back: labels that are non-empty, free of newline and of the separator,
-   and invertible (decimal numbers, Aspartix identifiers) *)
+   and invertible: [un (label a) = Some a].  Decimal numbers (C05_example); Aspartix identifiers,
+   printed in UTF-8 and read back by UTF-8 decoding + lookup: C05_apx_labels_invertible proves
+   [label_ok] for every identifier the Aspartix reader accepts, ASCII or not *)
 Theorem C05_parse_render : forall w label un q o,
   kind_ok q o -> (forall a, In a (outcome_args o) -> label_ok w label un a) ->
   parse_answer w un q (render w label o) = Some o.
@@ -429,8 +431,11 @@ Proof. exact wrapper_iccma_file_correct. Qed.
    [read_apx] and [Cli.apx_instance].  The framework F = [apx_af decls pairs] is the one denoted by the
    store the reader returns (live ids, attacks as id pairs); the first conjunct says what it is:
    argument id k is the k-th distinct declared label, attacks are exactly the declared pairs.
-   (Model caveat, see Proofs/CliE2EApx.v: Cli.apx_instance prints a label as its list of code points,
-   which is its UTF-8 encoding for ASCII labels only.) *)
+   Labels are Rust Strings, i.e. lists of Unicode code points ([str]); they are PRINTED in UTF-8
+   ([utf8_encode]) and the `-a` operand (bytes of the OS argument) is UTF-8 DECODED before the lookup.
+   The statement holds for all identifiers [_[:alpha:]][_[:alpha:]\d]* with the Unicode `\d`
+   (before the repair of Model/Cli.v the label conjuncts read [i_label i id = l] and
+   [nth_error labels a = Some w], which describe the tools for ASCII labels only). *)
 Theorem C05_apx_file_correct : forall oracle thr d fuel o f eols final_nl i q s al,
   valid_oracle oracle -> 1 <= thr ->
   apx_file_ok f -> IoSpec.final_ok (apx_file_lines f) final_nl ->
@@ -443,8 +448,9 @@ Theorem C05_apx_file_correct : forall oracle thr d fuel o f eols final_nl i q s 
    (forall a b, att F a b -> a < length labels /\ b < length labels) /\
    (forall a b la lb, nth_error labels a = Some la -> nth_error labels b = Some lb ->
                       (att F a b <-> In (la, lb) (att_pairs f)))) /\
-  (forall id l, nth_error labels id = Some l -> i_label i id = l) /\
-  (forall a, In a al -> exists w, o_arg o = Some w /\ nth_error labels a = Some w) /\
+  (forall id l, nth_error labels id = Some l -> i_label i id = utf8_encode l) /\
+  (forall a, In a al -> exists w l, o_arg o = Some w /\ utf8_decode w = Some l /\
+                                    nth_error labels a = Some l) /\
   match run_traced oracle thr d fuel o (apx_input bytes) with
   | (Exit0 out, log) =>
       (exists oc, out = render WApx (i_label i) oc /\ answer_ok q s (o_cert o) F al oc) /\
@@ -457,6 +463,34 @@ Theorem C05_apx_file_correct : forall oracle thr d fuel o f eols final_nl i q s 
                 (query_comps (solver_for q s) q (o_cert o) (i_g i) al) fuel
   end.
 Proof. exact apx_file_correct. Qed.
+
+(* the labels printed for an Aspartix framework are invertible, for EVERY identifier label (ASCII or
+   not): the UTF-8 bytes of the k-th distinct declared label, given as `-a` operand or found in a
+   witness line, name argument k; they are non-empty and contain neither a newline nor a comma *)
+Theorem C05_apx_labels_invertible : forall decls pairs,
+  (forall p, In p pairs -> In (fst p) decls /\ In (snd p) decls) ->
+  Forall (fun l => is_ident l = true) decls ->
+  let i := apx_instance (apx_result decls pairs) in
+  let labels := dedup str_eqb [] decls in
+  (forall id l, nth_error labels id = Some l -> i_arg i (utf8_encode l) = Some id) /\
+  (forall id, id < length labels -> label_ok WApx (i_label i) (i_arg i) id).
+Proof. exact apx_labels_invertible. Qed.
+
+(* hence the stdout of a successful run on a well-formed Aspartix file reads back ([parse_answer]:
+   lines, commas, UTF-8 decoding and lookup of every label) to an outcome that the semantics dictate *)
+Theorem C05_apx_file_reads_back : forall oracle thr d fuel o f eols final_nl i q s al out,
+  valid_oracle oracle -> 1 <= thr ->
+  apx_file_ok f -> IoSpec.final_ok (apx_file_lines f) final_nl ->
+  o_reader o = RApx ->
+  let bytes := render_lines (apx_file_lines f) eols final_nl in
+  let labels := dedup str_eqb [] (decl_labels f) in
+  let F := apx_af (decl_labels f) (att_pairs f) in
+  validate o (apx_input bytes) = inr (i, q, s, al) ->
+  run oracle thr d fuel o (apx_input bytes) = Exit0 out ->
+  (forall id, id < length labels -> label_ok WApx (i_label i) (i_arg i) id) /\
+  exists oc, parse_answer WApx (i_arg i) q out = Some oc /\
+             out = render WApx (i_label i) oc /\ answer_ok q s (o_cert o) F al oc.
+Proof. exact apx_file_reads_back. Qed.
 
 Theorem C05_apx_file_rejected : forall oracle thr d fuel o bytes,
   read_apx bytes = RdErr ->
@@ -498,6 +532,20 @@ Example C05_apx_example :
     = Exit0 (B "YES" ++ [10%N] ++ B "[c]" ++ [10%N]).
 Proof. exact apx_example. Qed.
 
+(* non-ASCII identifiers: `a` + ARABIC-INDIC DIGIT THREE (U+0663), `b` + MATHEMATICAL BOLD DIGIT ONE
+   (U+1D7CF, outside the BMP), `c`; the string literals are the UTF-8 bytes of this source file.
+   DS-PR for `b𝟏` (operand = 5 bytes): `NO` and the witness `[a٣,c]` printed in UTF-8 *)
+Example C05_apx_example_unicode :
+  let bytes := render_lines (apx_file_lines ex_apx_u) [] true in
+  apx_file_ok ex_apx_u /\ IoSpec.final_ok (apx_file_lines ex_apx_u) true /\
+  bytes = B "arg(a٣)." ++ [10%N] ++ B "arg(b𝟏)." ++ [10%N] ++ B "arg(c)." ++ [10%N] ++
+          B "att(a٣,b𝟏)." ++ [10%N] ++ B "att(b𝟏,a٣)." ++ [10%N] /\
+  B "b𝟏" = [98; 240; 157; 159; 143]%N /\
+  (exists i, validate ex_apx_u_options (apx_input bytes) = inr (i, QDS, PR, [1])) /\
+  run SolverWholeEx.bf_oracle 1 CadicalLike 100 ex_apx_u_options (apx_input bytes)
+    = Exit0 (B "NO" ++ [10%N] ++ B "[a٣,c]" ++ [10%N]).
+Proof. exact apx_example_unicode. Qed.
+
 Print Assumptions C05_problems_21.
 Print Assumptions C05_case_insensitive.
 Print Assumptions C05_problems_listing.
@@ -525,4 +573,6 @@ Print Assumptions C05_iccma_file_instance.
 Print Assumptions C05_iccma_file_rejected.
 Print Assumptions C05_wrapper_iccma_file_correct.
 Print Assumptions C05_apx_file_correct.
+Print Assumptions C05_apx_labels_invertible.
+Print Assumptions C05_apx_file_reads_back.
 Print Assumptions C05_apx_file_rejected.
